@@ -1365,6 +1365,9 @@ pub mod net {
         r.unwrap_or_else(|| Err(Error::new(ErrorKind::Other, "verif: execution ended")))
     }
 
+    /// send-buffer size of a simulated socket in non-blocking mode
+    pub const NB_SNDBUF: usize = 256 * 1024;
+
     fn sim_write(e: &SimEnd, buf: &[u8]) -> Result<usize> {
         if let Some((rt, me)) = cur() {
             rt.point(me, Want::Run);
@@ -1378,11 +1381,21 @@ pub mod net {
             if k.dropped[1 - e.side] {
                 return Err(Error::new(ErrorKind::BrokenPipe, "verif: peer closed"));
             }
+            // a non-blocking socket only takes what fits into its (bounded) send buffer: a short write, or
+            // WouldBlock when it is full. Blocking writes are modelled with an unbounded buffer.
+            let mut n = buf.len();
+            if k.nonblocking[e.side] {
+                let room = NB_SNDBUF.saturating_sub(k.buf[1 - e.side].len());
+                if room == 0 && !buf.is_empty() {
+                    return Err(Error::new(ErrorKind::WouldBlock, "verif: send buffer full"));
+                }
+                n = n.min(room);
+            }
             let off = k.written[e.side].len();
             k.wlog[e.side].push((off, now));
-            k.written[e.side].extend_from_slice(buf);
-            k.buf[1 - e.side].extend(buf.iter().copied());
-            Ok(buf.len())
+            k.written[e.side].extend_from_slice(&buf[..n]);
+            k.buf[1 - e.side].extend(buf[..n].iter().copied());
+            Ok(n)
         });
         // writes during tear-down are swallowed
         r.unwrap_or(Ok(buf.len()))
